@@ -851,6 +851,39 @@ func (e *contractEnv) newValue(fn *ssa.Function, v ssa.Value, depth int) Contrac
 		return Contract{Kind: CNil}
 	}
 	switch x := v.(type) {
+	case *ssa.Phi:
+		// a variable that is nil until some branch's New gives memory (or the same thing on every edge)
+		var parts []Contract
+		seenE := map[ssa.Value]bool{}
+		for _, ed := range x.Edges {
+			if ed == ssa.Value(x) || seenE[ed] {
+				continue
+			}
+			seenE[ed] = true
+			if ph, isPhi := ed.(*ssa.Phi); isPhi && depth >= 3 {
+				_ = ph
+				return Contract{Kind: CUnknown, Why: "nested phis"}
+			}
+			parts = append(parts, e.newValue(fn, ed, depth+1))
+		}
+		var nonNil []Contract
+		for _, f := range parts {
+			if f.Kind != CNil {
+				nonNil = append(nonNil, f)
+			}
+		}
+		if len(nonNil) == 0 {
+			return Contract{Kind: CNil}
+		}
+		if nonNil[0].Kind == CSubNew {
+			parts = nonNil
+		}
+		for _, f := range parts[1:] {
+			if f.String() != parts[0].String() {
+				return Contract{Kind: CConflict, Parts: parts}
+			}
+		}
+		return parts[0]
 	case *ssa.Convert:
 		// unsafe.Pointer(uintptr) of reflect.Value.Pointer() of a map
 		if call, ok := x.X.(*ssa.Call); ok && call.Call.StaticCallee() != nil && qualName(call.Call.StaticCallee()) == "(reflect.Value).Pointer" {
